@@ -560,7 +560,7 @@ Definition sos_det (k p : Z) (draws : list Z) : option (Z * Z) :=
     let s := r - 1 in
     if legendre s p =? 1 then
       match sqrootmodprime s p draws with None => None | Some b => Some (1, b) end
-    else sos_nonres r (least_nonres (Z.to_nat p) 2 p) p draws.
+    else sos_nonres r (least_nonres (Z.to_nat (4 * Z.log2 p * Z.log2 p + 10)) 2 p) p draws.
 (* sumofsquaresmodprimeNoERH  (lines 579-622).  rprime: the prime the loop `while(!isprime(r)) r += 4p` stops at
    (input; primality test), constrained by r = start (mod 4p), r >= start *)
 Definition noerh_start (k p : Z) : Z :=
